@@ -133,8 +133,8 @@ def main():
                 for i in range(n):
                     for k in range(i + 1, n):
                         m[i, k] = rng.randint(0, 3)
-                if j % 12 == 11:
-                    m = m * 2.0 ** -40                 # a graph of very small total weight (still exact)
+                if (j // 7) % 2 == 1:
+                    m = m * 2.0 ** -40                 # every other graph game has a very small total weight (still exact)
                 traces.append(one_trace(tid, n, GraphCooperativeGame(m), "exact", "int_graph"))
                 continue
             if j % 9 == 8:
